@@ -302,6 +302,7 @@ def run_batch(prop_id, tier, batch_seed, runs=None, workers=None, wall_cap=None,
             "batch_digest": digest_all,
             "engine_version": ENGINE_VERSION,
             "library_under_test": _library_path(),
+            "python_hash_seed": os.environ.get("PYTHONHASHSEED", ""),
             "runs_with_violation": n_viol_runs,
             "muted_known_findings": muted,
             "new_violation_signatures": [s for s, _, _ in new_violations],
